@@ -613,6 +613,12 @@ HReply(k, n) ==
                       /\ Enq(k, "Kill", None) /\ Quiet /\ UNCHANGED bq
   /\ UNCHANGED <<st, mp, mg, stored, panic>>
 
+\* the connection breaks while the task acts on a reply (a write fails): the task ends, whatever the reply was
+HReplyLost(k) == /\ Replied(k)
+                 /\ h' = [h EXCEPT ![k] = DeadH]
+                 /\ Enq(k, "Kill", None) /\ Quiet
+                 /\ UNCHANGED <<st, mp, mg, bq, stored, panic>>
+
 -----------------------------------------------------------------------------
 FK(t) == t \in FrameKinds
 FrameStep(k) ==
@@ -635,6 +641,7 @@ HandlerStep(k) ==
   \/ FrameStep(k) \/ HStart(k) \/ HConnFail(k) \/ HBroadHave(k) \/ HBroadState(k) \/ HBroadReleased(k) \/ HTickKA(k)
   \/ \E dl \in Rates, ul \in Rates : HTickStats(k, dl, ul)
   \/ \E n \in Pipeline : HReply(k, n)
+  \/ FK("Bad") /\ HReplyLost(k)
 
 ManagerStep ==
   \/ (AllHave /\ ~mg.ext /\ MAfterKill)
